@@ -8,9 +8,8 @@ use serde_json::{json, Map, Value};
 use starknet_crypto::Felt;
 use swiftness_air::{
     dynamic::DynamicParams,
-    public_memory::PublicInput,
     trace,
-    types::{AddrValue, Page, SegmentInfo},
+    types::{AddrValue, SegmentInfo},
 };
 use swiftness_commitment::{
     table::{config::Config as TableConfig, types::{Decommitment as TableDecommitment, Witness as TableWitness}},
@@ -284,18 +283,12 @@ pub fn load_opts(text: &str, strict: bool) -> Result<Loaded, String> {
         }
     }
     let (padding_addr, padding_value) = first.unwrap();
-    let public_input = PublicInput {
-        log_n_steps: fu(log_n_steps as u64),
-        range_check_min: fu(need_u64(pi, "rc_min")?),
-        range_check_max: fu(need_u64(pi, "rc_max")?),
-        layout: b2f(&BigUint::from_bytes_be(layout.as_bytes())),
-        dynamic_params,
-        segments,
-        padding_addr,
-        padding_value,
-        main_page: Page(main_page),
-        continuous_page_headers: vec![],
-    };
+    let public_input = crate::refm::pubin::make_public_input(
+        fu(log_n_steps as u64), fu(need_u64(pi, "rc_min")?), fu(need_u64(pi, "rc_max")?), b2f(&BigUint::from_bytes_be(layout.as_bytes())),
+        dynamic_params.as_ref().map(|d| serde_json::to_value(d).unwrap()),
+        &segments.iter().map(|s| (s.begin_addr, s.stop_ptr)).collect::<Vec<_>>(), (padding_addr, padding_value),
+        &main_page.iter().map(|c| (c.address, c.value)).collect::<Vec<_>>(), &[],
+    );
     // continuous pages: ids 1..k, each a run of consecutive addresses
     for (i, (id, cells)) in pages.iter().enumerate() {
         if *id != i as u64 + 1 {
